@@ -74,7 +74,7 @@ Next == \/ \E c \in Contents : Remove(c) \/ \E k \in Kinds : Add(c, k)
 Spec == Init /\ [][Next]_vars
 View == <<m, order, now, ops % CheckEvery>>
 OpsBound == ops <= 12
-OpsBoundQuick == ops <= 7
+OpsBoundQuick == ops <= 6
 (* ------------------------------ properties ------------------------------ *)
 Bounded == Cardinality(Present) <= MaxMarkers
 OrderAgrees == RangeOf(order) = Present /\ \A i, j \in DOMAIN order : i # j => order[i] # order[j]
